@@ -133,7 +133,8 @@ def run(ctx, only=None):
     status = {}      # key -> 'raises' | 'ok' | 'bad' | 'invalid' | 'oversize'
     audits = {}
     worst_all = {}
-    for key, d in sorted(dumps.items()):
+    evalcache = {}   # (cell, rule content) -> evaluation at the largest order that returned this rule
+    for key, d in sorted(dumps.items(), key=lambda kv: (kv[0][0], -kv[0][1])):
         cell, n = key
         ctx.hist('behaviour:' + cell, d.kind if d.kind != 'rule' else f'rule({len(d.nodes)} nodes)')
         if d.kind == 'raises':
@@ -147,15 +148,20 @@ def run(ctx, only=None):
             ctx.fail(d.key, f'get_quadrature({cell}, {n}) returned a malformed rule: {d.why}', {'cell': cell, 'order': n, 'why': d.why})
             continue
         nadv = max(n, 0)
-        if key in ints:
-            nodes_int, kw = ints[key]
-            a = O.audit(d, nodes_int, kx, kw, nadv, rng=ctx.rng, budget=ctx.n(400000, 3000000))
-        else:
-            a = _audit_big(d, nadv, ctx)
+        ck = (cell, tuple(d.nodes))
+        if ck not in evalcache:        # orders are visited from the largest down
+            if key in ints:
+                nodes_int, kw = ints[key]
+                evalcache[ck] = O.evaluate(d, nodes_int, kx, kw, nadv, rng=ctx.rng, budget=ctx.n(400000, 3000000))
+            else:
+                kxx = max(x.denominator.bit_length() - 1 for p, _ in d.nodes for x in p)
+                nodes_int, kw = D.as_ints(d, kxx)
+                evalcache[ck] = O.evaluate(d, nodes_int, kxx, kw, nadv, rng=None, budget=1)
+        a = O.verdict(cell, nadv, *evalcache[ck])
         audits[key] = a
-        ctx.cov['evaluations'] += a['evaluated']
-        for es, z in a['zsums']:
-            ctx.count((cell, n, tuple(es), z), nontrivial=sum(es) > 0)
+        for es, z, df in evalcache[ck][0]:
+            if O.deg_ok(D.SHAPE[cell], nadv, es):
+                ctx.count((cell, n, es), nontrivial=sum(es) > 0)
         worst_all[cell] = max(worst_all.get(cell, 0.0), float(a['worst']))
         if a['ok']:
             status[key] = 'ok' if key in ints else 'oversize'
@@ -204,13 +210,6 @@ def run(ctx, only=None):
 
     # ---- 6. more of the implementation: dispatch on elements, orders far outside the tables
     _oracle_extra(ctx, dumps)
-
-
-def _audit_big(d, nadv, ctx):
-    """rule too large to be written out: audit only nodes, weight sum and a few monomials"""
-    kx = max(x.denominator.bit_length() - 1 for p, _ in d.nodes for x in p)
-    nodes_int, kw = D.as_ints(d, kx)
-    return O.audit(d, nodes_int, kx, kw, nadv, rng=None, budget=1)
 
 
 def _report(ctx, d, a, nadv):
@@ -283,7 +282,7 @@ def _plan(ctx, dumps, ints, status, known):
     return plan
 
 
-LIT_BUDGET = 3500      # binary64 literals per generated data file (coqc reads ~700 literals/s)
+LIT_BUDGET = 1500      # binary64 literals per generated data file (coqc reads ~700 literals/s)
 
 
 def _write(ctx, dumps, ints, status, plan, kx, nm):
@@ -298,25 +297,36 @@ def _write(ctx, dumps, ints, status, plan, kx, nm):
         for (c, n), d in sorted(dumps.items()):
             if c == cell and (c, n) in ints:
                 groups.setdefault(tuple(d.nodes), []).append(n)
-        cur, cur_lits, k = '', 0, 0
+        cur_lits, k = 0, 0
+        cur_vals, cur_rules = {}, []
 
         def flush():
-            nonlocal cur, cur_lits, k
-            if cur:
+            nonlocal cur_lits, k, cur_vals, cur_rules
+            if cur_rules:
+                dname = f'dict_{cid[cell]}_{k}'
+                vals = sorted(cur_vals)
+                index = {v: i for i, v in enumerate(vals)}
+                txt = G.dict_literal(dname, vals)
+                for lit, nodes_int, kw, ns in cur_rules:
+                    txt += G.rule_literal(lit, nodes_int, kx, kw, dname, index)
+                    for n in ns:
+                        txt += f'Definition {G.rname(cell, n)} : drule := {lit}.\n'
                 rel = f'gen/C08_Data_{cid[cell]}_{k}.v'
-                ctx.write(rel, hdr_data + cur)
+                ctx.write(rel, hdr_data + txt)
                 files['data'].append(rel)
                 k += 1
-            cur, cur_lits = '', 0
+            cur_lits, cur_vals, cur_rules = 0, {}, []
         for gi, (content, ns) in enumerate(groups.items()):
             nodes_int, kw = ints[(cell, ns[0])]
-            nl = len(nodes_int) * (len(nodes_int[0][0]) + 1)
-            if cur and cur_lits + nl > LIT_BUDGET:
+            newvals = {x for xs, _ in nodes_int for x in xs} - set(cur_vals)
+            nl = len(nodes_int) + len(newvals)
+            if cur_rules and cur_lits + nl > LIT_BUDGET:
                 flush()
-            lit = f'lit_{cid[cell]}_{gi}'
-            cur += G.rule_literal(lit, nodes_int, kx, kw)
+                newvals = {x for xs, _ in nodes_int for x in xs}
+                nl = len(nodes_int) + len(newvals)
+            cur_vals.update(dict.fromkeys(newvals))
+            cur_rules.append((f'lit_{cid[cell]}_{gi}', nodes_int, kw, ns))
             for n in ns:
-                cur += f'Definition {G.rname(cell, n)} : drule := {lit}.\n'
                 module_of[(cell, n)] = f'Gen.C08_Data_{cid[cell]}_{k}'
             cur_lits += nl
         flush()
@@ -334,9 +344,9 @@ def _write(ctx, dumps, ints, status, plan, kx, nm):
             nadv = max(n, 0)
             sh, r, tol = G.coq_shape(cell), G.rname(cell, n), plan['tol'][(cell, n)]
             jobs = classes.setdefault(cell, [])
-            jobs.append((0.05, f'Lemma nodes_{s} : nodes_ok {sh} {r} = true.\n' + VM, [(cell, n)]))
+            jobs.append((0.05, f'Lemma nodes_{s} : nodes_ok {sh} {r} && nodes_nonneg {r} = true.\n' + VM, [(cell, n)]))
             for i, (start, ln, cost) in enumerate(route[1]):
-                jobs.append((cost + 0.15, f'Lemma part_{s}_{i} : check_part {sh} {r} {nadv} {tol} (mpart {sh} {nadv} {start} {ln}) = true.\n' + VM,
+                jobs.append((cost + 0.15, f'Lemma part_{s}_{i} : icheck_part {sh} {r} {nadv} {tol} B72 (mpart {sh} {nadv} {start} {ln}) = true.\n' + VM,
                              [(cell, n)]))
         elif route[0] == 'tensor':
             nq = len(dumps[(cell, n)].nodes)
@@ -382,7 +392,7 @@ def _write(ctx, dumps, ints, status, plan, kx, nm):
                 for i in reversed(range(len(route[1]))):
                     fa = f'apply Forall_cons; [exact part_{s}_{i} | {fa}]'
                 a += (f'Lemma g_{s} : rule_okQ {sh} (toQ {r}) {nadv} {tol}.\n'
-                      f'Proof. apply (check_parts_sound _ _ _ _ [{parts}]); [exact nodes_{s} | vm_compute; reflexivity | {fa}]. Qed.\n')
+                      f'Proof. apply (icheck_parts_sound _ _ _ _ B72 [{parts}]); [exact (proj1 (proj1 (andb_true_iff _ _) nodes_{s})) | exact (proj2 (proj1 (andb_true_iff _ _) nodes_{s})) | vm_compute; reflexivity | {fa}]. Qed.\n')
             else:
                 _, f1, f2 = route
                 a += (f'Lemma g_{s} : rule_okQ {sh} (toQ {r}) {nadv} {tol}.\n'
